@@ -28,7 +28,7 @@ func init() {
 		ghostAll = append(ghostAll, "G."+k)
 	}
 	wrG := []string{"G.wr_failed", "G.wr_offered", "G.wr_calls", "G.wr_last", "G.crc_hi", "G.crc_lo", "G.crc_src", "G.crc_last"}
-	rdG := []string{"G.rd_pos", "G.rd_left", "G.rd_eof", "G.crc_hi", "G.crc_lo", "G.crc_src", "G.crc_last", "F.io.LimitedReader.N"}
+	rdG := []string{"G.rd_pos", "G.rd_left", "G.rd_eof", "G.rd_gen", "G.rd_fault", "G.crc_hi", "G.crc_lo", "G.crc_src", "G.crc_last", "F.io.LimitedReader.N"}
 	natives = map[string]nativeFn{}
 	nativeMods = map[string][]string{}
 	reg := func(name string, mods []string, fn nativeFn) {
@@ -100,8 +100,9 @@ func init() {
 		e.assume(fmt.Sprintf("(and (<= 0 %s) (<= %s %s) (= (= %s 0) (= %s %s)))", n, n, s.L, er, n, s.L))
 		// io.ReadFull: EOF only if nothing was read, ErrUnexpectedEOF only if something was (for sources honouring io.Reader, A2)
 		e.assume(fmt.Sprintf("(and (=> (isEOF %s) (= %s 0)) (=> (isUEOF %s) (> %s 0)) (=> (= %s 0) (and (not (isEOF 0)) true)))", er, n, er, n, er))
-		f.fillBytes(h, s, nm)
+		f.fillFromStream(h, s, nm, r, n)
 		f.readerAdvance(h, r, n, pc)
+		f.noteFault(h, er)
 		f.setResult(in, rv)
 		return true
 	})
@@ -109,6 +110,9 @@ func init() {
 		e := f.e
 		r := e.scalar(args[0])
 		f.safetyOb("nopanic:nil", pc, fmt.Sprintf("(not (= %s 0))", r), in.Pos(), in)
+		// io.ReadAll buffers everything the source still delivers: that amount must be known to stay under the ceiling
+		left := e.ghost(h, "rd_left")
+		e.ob(f, "alloc", "io.ReadAll buffers whatever the source still delivers: "+e.w.srcText(in.Pos(), in), f.safety, pc, fmt.Sprintf("(< (select %s %s) 2147483648)", left, r), in.Pos())
 		f.implHavoc(h, "Read/1:2", args[0])
 		rv := e.havocVal(nm, resT).(TupleV)
 		if s, ok := rv[0].(SliceV); ok {
@@ -300,7 +304,26 @@ func init() {
 		f.setResult(in, Sc{r})
 		return true
 	})
-	for _, n := range []string{"bytes.NewReader", "bytes.NewBuffer", "bufio.NewReader", "bufio.NewReaderSize", "bufio.NewWriter", "github.com/pierrec/lz4/v4.NewReader", "github.com/pierrec/lz4/v4.NewWriter",
+	reg("bytes.NewReader", rdG, func(f *frame, in ssa.Instruction, callee *ssa.Function, args []Val, pc string, h *Heap, nm string, resT types.Type) bool {
+		e := f.e
+		r := e.newRef(nm + ".bytesreader")
+		g := f.newStream(h, r, nm)
+		if s, ok := args[0].(SliceV); ok {
+			f.streamIsSlice(h, r, g, s)
+		}
+		f.setResult(in, PtrV{&Loc{Kind: LObj, Ref: r, T: resT.(*types.Pointer).Elem()}})
+		return true
+	})
+	reg("(*bytes.Reader).Reset", rdG, func(f *frame, in ssa.Instruction, callee *ssa.Function, args []Val, pc string, h *Heap, nm string, resT types.Type) bool {
+		e := f.e
+		r := e.scalar(args[0])
+		g := f.newStream(h, r, nm)
+		if s, ok := args[1].(SliceV); ok {
+			f.streamIsSlice(h, r, g, s)
+		}
+		return true
+	})
+	for _, n := range []string{"bytes.NewBuffer", "bufio.NewReader", "bufio.NewReaderSize", "bufio.NewWriter", "github.com/pierrec/lz4/v4.NewReader", "github.com/pierrec/lz4/v4.NewWriter",
 		"compress/bzip2.NewReader", "strings.NewReader", "io.MultiReader", "io.TeeReader", "io.NopCloser", "io.NewSectionReader"} {
 		reg(n, nil, pureFresh(true))
 	}
@@ -317,10 +340,21 @@ func init() {
 	reg("github.com/klauspost/compress/zstd.NewReader", nil, ctor2)
 	reg("github.com/klauspost/compress/zstd.NewWriter", nil, ctor2)
 	// methods of external concrete types that only touch their own (external) state
-	for _, n := range []string{"(*bytes.Reader).Reset", "(*bytes.Buffer).Reset", "(*github.com/klauspost/compress/zstd.Decoder).Close", "(*github.com/pierrec/lz4/v4.Reader).Reset",
+	for _, n := range []string{"(*bytes.Buffer).Reset", "(*github.com/klauspost/compress/zstd.Decoder).Close",
 		"(*github.com/pierrec/lz4/v4.Writer).Apply", "(*github.com/pierrec/lz4/v4.Writer).Reset", "(*github.com/klauspost/compress/zstd.Encoder).Reset",
-		"(*github.com/klauspost/compress/zstd.Decoder).Reset", "(*strings.Builder).WriteByte", "(*strings.Builder).WriteRune", "(*bytes.Buffer).WriteString", "(*bytes.Buffer).WriteByte"} {
+		"(*strings.Builder).WriteByte", "(*strings.Builder).WriteRune", "(*bytes.Buffer).WriteString", "(*bytes.Buffer).WriteByte"} {
 		reg(n, nil, pureFresh(false))
+	}
+	// a decompressor reset onto another source delivers a new stream
+	for _, n := range []string{"(*github.com/klauspost/compress/zstd.Decoder).Reset", "(*github.com/pierrec/lz4/v4.Reader).Reset"} {
+		reg(n, rdG, func(f *frame, in ssa.Instruction, callee *ssa.Function, args []Val, pc string, h *Heap, nm string, resT types.Type) bool {
+			e := f.e
+			f.newStream(h, e.scalar(args[0]), nm)
+			if resT != nil {
+				f.setResult(in, e.havocVal(nm, resT))
+			}
+			return true
+		})
 	}
 	sbLen := func(e *Engine, h *Heap, recv Val) (string, string) {
 		arr := e.comp(h, "G.sb_len", "Int", false)
@@ -693,8 +727,9 @@ func init() {
 		rv := e.havocVal(nm, resT).(TupleV)
 		n := e.scalar(rv[0])
 		e.assume(fmt.Sprintf("(and (<= 0 %s) (<= %s %s))", n, n, s.L))
-		f.fillBytes(h, s, nm)
+		f.fillFromStream(h, s, nm, r, n)
 		f.readerAdvance(h, r, n, pc)
+		f.noteFault(h, e.scalar(rv[1]))
 		f.setResult(in, rv)
 		return true
 	})
@@ -754,7 +789,14 @@ func init() {
 		return true
 	})
 	regI("Reset/1:0", nil, simple(nil)) // ResettableWriteCloser.Reset(io.Writer): A6 — does not write to the new destination
-	regI("Reset/1:1", nil, simple(nil)) // ResettableReader.Reset(io.Reader) error
+	regI("Reset/1:1", rdG, func(f *frame, in ssa.Instruction, c *ssa.CallCommon, r string, args []Val, pc string, h *Heap, nm string, resT types.Type) bool {
+		// ResettableReader.Reset(io.Reader) error: the decompressor delivers a new stream afterwards
+		f.newStream(h, r, nm)
+		if resT != nil {
+			f.setResult(in, f.e.havocVal(nm, resT))
+		}
+		return true
+	})
 	regI("Compressor/0:1", nil, simple(nil))
 	regI("Compression/0:1", nil, simple(nil))
 }
@@ -809,6 +851,48 @@ func (f *frame) fillBytes(h *Heap, s SliceV, nm string) {
 	e.assume(fmt.Sprintf("(forall ((j Int)) (! (=> (or (< j %s) (>= j (+ %s %s))) (= (select %s j) (select (select %s %s) j))) :pattern ((select %s j))))", s.O, s.O, s.L, na, arr, s.B, na))
 	e.assume(fmt.Sprintf("(forall ((j Int)) (! (and (<= 0 (select %s j)) (<= (select %s j) 255)) :pattern ((select %s j))))", na, na, na))
 	e.setComp(h, "E.uint8", fmt.Sprintf("(store %s %s %s)", arr, s.B, na))
+}
+
+// fillFromStream: the first n bytes of s now hold what source r delivers at its current position; the rest of s may have
+// been used as scratch (io.ReadFull and Read promise nothing about it), everything else of that array is unchanged.
+func (f *frame) fillFromStream(h *Heap, s SliceV, nm string, r, n string) {
+	e := f.e
+	f.fillBytes(h, s, nm)
+	arr := e.comp(h, "E.uint8", "Int", true)
+	gen := e.ghost(h, "rd_gen")
+	pos := e.ghost(h, "rd_pos")
+	e.useQuant = true
+	row := fmt.Sprintf("(select %s %s)", arr, s.B)
+	e.assume(fmt.Sprintf("(forall ((j Int)) (! (=> (and (<= %s j) (< j (+ %s %s))) (= (select %s j) (rdbyte %s (select %s %s) (+ (select %s %s) (- j %s))))) :pattern ((select %s j))))",
+		s.O, s.O, n, row, r, gen, r, pos, r, s.O, row))
+}
+
+// noteFault records (at key 0 of rd_fault) that a read ended with an error other than EOF / unexpected EOF.
+func (f *frame) noteFault(h *Heap, er string) {
+	e := f.e
+	flt := e.ghost(h, "rd_fault")
+	e.setGhost(h, "rd_fault", flt, "0", fmt.Sprintf("(or (select %s 0) (and (not (= %s 0)) (not (isEOF %s)) (not (isUEOF %s))))", flt, er, er, er))
+}
+
+// newStream: reader r now stands at the start of a new stream (fresh generation).
+func (f *frame) newStream(h *Heap, r, nm string) string {
+	e := f.e
+	g := e.fresh(nm+".gen", "Int")
+	gen := e.ghost(h, "rd_gen")
+	e.setGhost(h, "rd_gen", gen, r, g)
+	pos := e.ghost(h, "rd_pos")
+	e.setGhost(h, "rd_pos", pos, r, "0")
+	eof := e.ghost(h, "rd_eof")
+	e.setGhost(h, "rd_eof", eof, r, "false")
+	return g
+}
+
+// streamIsSlice: the stream of r (generation g) is the current content of slice s.
+func (f *frame) streamIsSlice(h *Heap, r, g string, s SliceV) {
+	e := f.e
+	arr := e.comp(h, "E.uint8", "Int", true)
+	e.useQuant = true
+	e.assume(fmt.Sprintf("(forall ((i Int)) (! (=> (and (<= 0 i) (< i %s)) (= (rdbyte %s %s i) (select (select %s %s) (+ %s i)))) :pattern ((rdbyte %s %s i))))", s.L, r, g, arr, s.B, s.O, r, g))
 }
 
 // setGhost stores a new value of a ghost component at one key (recorded so that frames can be checked syntactically).
